@@ -127,7 +127,7 @@ Theorem C19_error_class_table : forall kind, kind <> 20 ->
 Proof. exact class_table. Qed.
 Print Assumptions C19_error_class_table.
 
-Theorem C19_error_message_table : forall kind, kind <> 12 -> kind <> 13 ->
+Theorem C19_error_message_table : forall kind, kind <> 12 -> kind <> 13 -> kind <> 38 ->
   model_msg_nonempty kind = spec_msg_nonempty kind.
 Proof. exact message_table. Qed.
 Print Assumptions C19_error_message_table.
